@@ -202,7 +202,7 @@ def _pathkind(path):
 
 
 def letters():
-  return [(how, pos, c) for how in ("cls", "obj") for pos in D.POSITIONS for c in D.CATALOG]
+  return [(how, pos, c) for how in ("cls", "obj") for pos in D.POSITIONS for c in D.CATALOG if pos in D.ONLY_AT.get(c, D.POSITIONS)]
 
 
 def histories(tier):
